@@ -55,6 +55,9 @@ func genStreams(r *simrt.RNG, tier string, variant int, prop string) Plan {
 		if r.Bool(0.3) {
 			op.Kind = "subt" // struct elements, optionally large (multi-frame values)
 			op.Size = Pick(r, []int{0, 0, 50, 5000})
+		} else if r.Bool(0.12) && n >= 2 {
+			op.Kind = "subf" // float elements, one of them not encodable (NaN): dropped
+			op.Size = 1 + r.Intn(n-1)
 		}
 		tok++
 		if r.Bool(0.15) {
@@ -91,7 +94,7 @@ func genStreams(r *simrt.RNG, tier string, variant int, prop string) Plan {
 			// cancel the context of one subscription
 			var subs []int
 			for _, op := range p.Ops {
-				if op.Kind == "sub" || op.Kind == "subt" {
+				if op.Kind == "sub" || op.Kind == "subt" || op.Kind == "subf" {
 					subs = append(subs, op.Tok)
 				}
 			}
@@ -118,7 +121,7 @@ func runStreams(e *Env, p *Plan) {
 	var cmu sync.Mutex
 	cancelled := map[int]bool{}
 	for _, op := range p.Ops {
-		if op.Kind == "sub" || op.Kind == "subt" {
+		if op.Kind == "sub" || op.Kind == "subt" || op.Kind == "subf" {
 			ctx, cancel := context.WithCancel(context.Background())
 			cancels[op.Tok], ctxs[op.Tok] = cancel, ctx
 		}
@@ -185,7 +188,11 @@ func runStreams(e *Env, p *Plan) {
 
 	// ---- oracles ---------------------------------------------------------------
 	for _, op := range p.Ops {
-		if op.Kind != "sub" && op.Kind != "subt" {
+		if op.Kind != "sub" && op.Kind != "subt" && op.Kind != "subf" {
+			continue
+		}
+		if op.Kind == "subf" {
+			checkSubF(e, prop, op)
 			continue
 		}
 		st := e.Sub(op.Tok)
@@ -270,7 +277,7 @@ func (w *World) checkStreamWire(oracle string) {
 	for _, p := range w.WSPipes() {
 		subReq := map[string]int{} // request id -> tok
 		for _, m := range w.Wire(p, "c2s") {
-			if (m.Method == "T.Sub" || m.Method == "T.SubT") && m.HasID {
+			if (m.Method == "T.Sub" || m.Method == "T.SubT" || m.Method == "T.SubF") && m.HasID {
 				subReq[m.ID] = tokOfParams(m.Params)
 			}
 		}
@@ -302,5 +309,36 @@ func (w *World) checkStreamWire(oracle string) {
 				}
 			}
 		}
+	}
+}
+
+// checkSubF: a float stream with one unencodable element (NaN at index op.Size):
+// that element is dropped, every other one arrives in order, the stream closes
+// (C07), or a prefix of that sequence arrives (C08).
+func checkSubF(e *Env, prop string, op Op) {
+	st := e.Sub(op.Tok)
+	st.mu.Lock()
+	recv, handed, closed, pdone := append([]int(nil), st.Received...), st.Handed, st.Closed, st.ProdDone
+	st.mu.Unlock()
+	var want []int
+	for k := 0; k < op.N; k++ {
+		if k != op.Size {
+			want = append(want, SubVal(op.Tok, k))
+		}
+	}
+	for i, v := range recv {
+		if i >= len(want) || want[i] != v {
+			e.Violate(prop+".prefix", "float subscription tok=%d (element %d is NaN): received[%d]=%d, want %v", op.Tok, op.Size, i, v, clip(want))
+			return
+		}
+	}
+	if prop != "C07" || !handed || op.Stall || op.Consume > 0 {
+		if prop == "C08" && handed && !op.Stall && !closed {
+			e.Violate("C08.closed-eventually", "float subscription tok=%d: channel never closed", op.Tok)
+		}
+		return
+	}
+	if !pdone || len(recv) != len(want) || !closed {
+		e.Violate("C07.lossless", "float subscription tok=%d with one unencodable element: received %d of %d encodable values, producer done=%v, closed=%v (one bad element must not stop the stream or the connection's other streams)", op.Tok, len(recv), len(want), pdone, closed)
 	}
 }
